@@ -223,6 +223,9 @@ def run(ctx):
         # ---- h  merging: the list is merged after every addition, before the count is compared with the limit
         #         and before the range is handed out, and the merge predicate is "touching or overlapping"
         merge_clauses(ck, prog, config, mr)
+        # ---- i  no comparison of the range code narrows a 64-bit offset or distance first
+        from ..rules import extra as _x2
+        _x2.check_narrow_compare(ck, prog, config, 'C10-i', ('src/lib/dl/range.c',), what='file offset or distance')
         # ---- b
         ra = prog.need_func('range_add')
         subst = unique_defs(ra)
